@@ -10,6 +10,7 @@ import (
 	"fmt"
 	"io"
 	"log/slog"
+	"math"
 	"os"
 	"path/filepath"
 	"reflect"
@@ -276,6 +277,11 @@ func (m *Mint) RequestMintQuote(mintQuoteRequest nut04.PostMintQuoteBolt11Reques
 
 	// check limits
 	requestAmount := mintQuoteRequest.Amount
+	// the lightning backends work in millisats (and signed integers): an amount that does not fit would
+	// wrap around and give an invoice for less than the amount of the quote
+	if requestAmount > maxInvoiceAmountSat {
+		return storage.MintQuote{}, cashu.MintAmountExceededErr
+	}
 	if m.limits.MintingSettings.MaxAmount > 0 {
 		if requestAmount > m.limits.MintingSettings.MaxAmount {
 			return storage.MintQuote{}, cashu.MintAmountExceededErr
@@ -1356,6 +1362,10 @@ func (m *Mint) signBlindedMessages(blindedMessages cashu.BlindedMessages) (cashu
 }
 
 // requestInvoice requests an invoice from the Lightning backend for the given amount
+// largest amount in sats for which an invoice can be requested:
+// in millisats it still fits in an int64
+const maxInvoiceAmountSat uint64 = math.MaxInt64 / 1000
+
 func (m *Mint) requestInvoice(amount uint64) (*lightning.Invoice, error) {
 	invoice, err := m.lightningClient.CreateInvoice(amount)
 	if err != nil {
